@@ -1,5 +1,5 @@
 import PikaVerif.Lemmas.Snd
-import PikaVerif.Lemmas.Shared2
+import PikaVerif.Lemmas.Shared3
 /-!
 # C03 — sender adaptors deliver exactly one, correct completion signal
 
@@ -257,6 +257,30 @@ theorem C03_split_no_abort (s : Shared.St) (hr : SReach s) (hs : s.storesStopped
     s.aborted = false := by
   obtain ⟨kind, ss, log, hl⟩ := hr
   exact (Shared.full_of_accepted hl).sinv.noAbort hs
+
+/-- A stuck state: no step of the adaptor code is possible, only the invocation of a new operation
+    (`invComplete`, `invConsume`) or the retirement of a thread. -/
+def SStuck (s : Shared.St) : Prop := ∀ e, Shared.Ev.isCall e = false → Shared.step s e = none
+
+/-- **Progress / no lost wake-up.**  A reachable state that has not aborted and in which the code
+    cannot take a step is quiescent: no consumer's `start()` and no completion call hangs inside
+    the protocol (a thread waiting for the spinlock always waits for a holder that can move). -/
+theorem C03_split_progress (s : Shared.St) (hr : SReach s) (ha : s.aborted = false)
+    (hst : SStuck s) : SQuiet s := by
+  obtain ⟨kind, ss, log, hl⟩ := hr
+  intro t
+  cases Classical.em (s.pc t = .idle ∨ s.pc t = .fin) with
+  | inl h => exact h
+  | inr h =>
+    obtain ⟨e, he, hm⟩ := Shared.progress s (Shared.full2_of_accepted hl) ha t h
+    rw [hst e he] at hm; simp at hm
+
+/-- The headline statement at a stuck state. -/
+theorem C03_split_stuck_all_served (s : Shared.St) (hr : SReach s) (hst : SStuck s)
+    (hs : s.storesStopped = true) (c : Shared.Compl) (hc : s.sig = some c ∨ s.pending = some c) :
+    ∀ k, s.phase k ≠ .unused → s.got k = 1 ∧ s.gotSig k = some (Shared.sigFor s.kind k c) :=
+  C03_split_each_consumer_once s hr
+    (C03_split_progress s hr (C03_split_no_abort s hr hs) hst) hs c hc
 
 /-- One consumer stores its continuation, then the predecessor completes with stopped: in the
     pinned tree the predecessor's thread aborts while running the continuation, the consumer
